@@ -310,6 +310,8 @@ pub struct RunCtx {
     pub expected_panic_seen: AtomicU32,
     /// (C15) attempts made on panicked objects: (kind, object, failed loudly)
     pub attempts:   Mutex<Vec<(u8, usize, bool)>>,
+    /// panicked objects whose last owner was dropped by an unwinding thread in the closing phase
+    pub dropped_unwinding: AtomicU32,
     pub stash:      Mutex<std::collections::HashMap<OpId, Held>>,
     pub waiters:    Mutex<Vec<Thread>>,
     pub stashed_wakers: Mutex<Vec<Waker>>,
@@ -1183,7 +1185,7 @@ pub fn build(prog: Program, native: bool) -> Handles {
         resumers: (0..n).map(|_| Mutex::new(None)).collect(),
         resume_stamp: (0..n).map(|_| AtomicU64::new(0)).collect(),
         wake_classes: (0..9 * 6).map(|_| AtomicU32::new(0)).collect(),
-        native, expected_panic_seen: AtomicU32::new(0), attempts: Mutex::new(vec![]), stash: Mutex::new(Default::default()), waiters: Mutex::new(vec![]), stashed_wakers: Mutex::new(vec![]), has_waiters: AtomicBool::new(prog_has_waits(&prog)),
+        native, expected_panic_seen: AtomicU32::new(0), attempts: Mutex::new(vec![]), dropped_unwinding: AtomicU32::new(0), stash: Mutex::new(Default::default()), waiters: Mutex::new(vec![]), stashed_wakers: Mutex::new(vec![]), has_waiters: AtomicBool::new(prog_has_waits(&prog)),
         prog,
     });
     Handles { ctx, objects }
